@@ -4118,6 +4118,40 @@ def sort_imports(source: str) -> str:
     return source
 
 
+def _is_boolean_valued(node: ast.AST) -> bool:
+    """Whether an expression evaluates to True or False, and not to another truthy or falsy object."""
+    if isinstance(node, ast.BoolOp):  # x and y is x or y
+        return all(map(_is_boolean_valued, node.values))
+    if isinstance(node, ast.IfExp):
+        return _is_boolean_valued(node.body) and _is_boolean_valued(node.orelse)
+
+    boolean_functions = ("bool", "isinstance", "issubclass", "callable", "hasattr", "any", "all")
+    template = (
+        ast.Compare,
+        ast.UnaryOp(op=ast.Not),
+        ast.Constant(value=bool),
+        ast.Call(func=ast.Name(id=boolean_functions)),
+    )
+    return bool(core.match_template(node, template))
+
+
+def _find_replace_condition(
+    source: str, find: str, replace: str, replace_other: str, transaction: int
+) -> Iterable[Tuple[core.Range, str, int]]:
+    """Replace find with replace if {{condition}} is True or False, and else with replace_other."""
+    for *rewrite, template_match in processing.find_replace(
+        source, find, replace, transaction=transaction, yield_match=True
+    ):
+        if _is_boolean_valued(template_match.condition):
+            yield tuple(rewrite)
+
+    for *rewrite, template_match in processing.find_replace(
+        source, find, replace_other, transaction=transaction, yield_match=True
+    ):
+        if not _is_boolean_valued(template_match.condition):
+            yield tuple(rewrite)
+
+
 @processing.fix
 def fix_if_return(source: str) -> str:
     find = """
@@ -4125,9 +4159,10 @@ def fix_if_return(source: str) -> str:
         return True
     return False
     """
-    replace = "return {{condition}}"
-
-    yield from processing.find_replace(source, find, replace, transaction=0)
+    # "if x: return True" returns True, and not x
+    yield from _find_replace_condition(
+        source, find, "return {{condition}}", "return bool({{condition}})", transaction=0
+    )
 
     find = """
     if {{condition}}:
@@ -4156,9 +4191,13 @@ def fix_if_assign(source: str) -> str:
     else:
         {{variable}} = False
     """
-    replace = "{{variable}} = {{condition}}"
-
-    yield from processing.find_replace(source, find, replace, transaction=0)
+    yield from _find_replace_condition(
+        source,
+        find,
+        "{{variable}} = {{condition}}",
+        "{{variable}} = bool({{condition}})",
+        transaction=0,
+    )
 
     find = """
     if {{condition}}:
